@@ -280,6 +280,36 @@ func main() {
 				w.Put(lib.Case{Klass: fmt.Sprintf("history-collision-%d", k), Input: lib.MustJSON(in), Impl: runImpl(in), Oracle: oracle(in), CoqModel: coqModel(in)})
 			}
 		}
+		// histories on ONE layout value: substituted with a first dictionary, then (the same value, as a caller that
+		// keeps its loaded layout would do) with a second one, then with the first again - every result must be the
+		// template rewritten with the dictionary of THAT call
+		for i := 0; i < 8; i++ {
+			rr := r.Fork()
+			in, klass := genCase(rr)
+			if klass != "valid" || len(in.Dict) == 0 {
+				continue
+			}
+			var shared intoto.Layout
+			b, _ := json.Marshal(in.Layout)
+			if err := json.Unmarshal(b, &shared); err != nil {
+				panic(err)
+			}
+			d2 := map[string]string{}
+			for _, nm := range in.Names {
+				d2[nm] = in.Dict[nm] + "-" + rr.Str("pq", 1, 2)
+			}
+			for k, d := range []map[string]string{in.Dict, d2, in.Dict} {
+				ink := input{Layout: in.Layout, Names: in.Names, Dict: d}
+				impl := lib.Recover(func() string {
+					out, err := intoto.SubstituteParameters(shared, d)
+					if err != nil {
+						return "ERR"
+					}
+					return "OK" + lib.ShowLayout(out)
+				})
+				w.Put(lib.Case{Klass: fmt.Sprintf("history-same-object-%d", k), Input: lib.MustJSON(ink), Impl: impl, Oracle: oracle(ink), CoqModel: coqModel(ink)})
+			}
+		}
 		for i := 0; i < n; i++ {
 			in, klass := genCase(r.Fork())
 			impl := runImpl(in)
